@@ -43,6 +43,8 @@ func main() {
 			codecCheck(c, `{"C04"}`)
 		case "C05":
 			codecCheck(c, `{"C05"}`)
+		case "C06":
+			checkC06(c)
 		case "C09":
 			wireCheck(c, "C09", false, nil)
 		case "C10":
